@@ -790,8 +790,9 @@ __strfd_rom(
 	case DT_SPFL_N_WCNT_MON: {
 		unsigned int c = d->c;
 
-		if (!c) {
-			/* don't store the result */
+		if (!c || that.typ == DT_YWD) {
+			/* don't store the result,
+			 * for ywd dates c is the week of the year */
 			c = (unsigned int)dt_get_wcnt_mon(that);
 		}
 		res = ui32tostrrom(buf, bsz, c);
